@@ -492,7 +492,13 @@ def C07(c):
 # ---------------------------------------------------------------------------------------------
 MODELLED = ["MACD", "BollingerBands", "Aroon", "RelativeStrengthIndex", "StochasticOscillator", "DonchianChannel",
             "PriceChannelStrategy", "KeltnerChannel", "Envelopes", "IchimokuCloud", "ChaikinMoneyFlow", "MoneyFlowIndex",
-            "ChandeMomentumOscillator", "TrueStrengthIndex", "SMIErgodicIndicator", "ParabolicSAR"]
+            "ChandeMomentumOscillator", "TrueStrengthIndex", "SMIErgodicIndicator", "ParabolicSAR",
+            # second tier
+            "AwesomeOscillator", "ChaikinOscillator", "CommodityChannelIndex", "WoodiesCCI", "CoppockCurve",
+            "DetrendedPriceOscillator", "EaseOfMovement", "EldersForceIndex", "HullMovingAverage", "Kaufman", "MomentumIndex",
+            "Trix", "KlingerVolumeOscillator", "KnowSureThing", "RelativeVigorIndex", "PivotReversalStrategy",
+            "ChandeKrollStop", "AverageDirectionalIndex"]
+UNMODELLED = ["FisherTransform", "TrendStrengthIndex"]
 
 IND_CLASSES = {
     "C05": ("ind-init", "ind-value", "ind-panic", "ind-shape"),
@@ -501,8 +507,9 @@ IND_CLASSES = {
 }
 
 IND_TRUST = [
-    "hand-written indicator models (lean/YataModel/Indicators.lean, 16 of the 36 indicators: " + ", ".join(MODELLED) + "); the other "
-    "indicators are outside this property's theorems and comparisons and are covered by C08-C11/C13 only",
+    "hand-written indicator models (lean/YataModel/Indicators.lean, Indicators2.lean: 34 of the 36 indicators: " + ", ".join(MODELLED) +
+    "); FisherTransform (atanh) and TrendStrengthIndex (square root of a running variance) have no model and are covered by "
+    "C07-C11/C13 only",
     "tie: every `ind` transcript (every indicator x default + random valid configurations through the string setters, all 15 MA kinds, "
     "all Source kinds x candle classes walk/flat/gaps/zero-volume/volatile-flat-volatile) is replayed through the executable model "
     "by the compiled driver; init result kinds must agree, then every step is compared",
@@ -540,8 +547,9 @@ def C05(c):
         trusted_extra=[
             "the Parabolic SAR comparison of a case ends (counted exempt) at the first step where the flip decision is within "
             "64 ulp of the SAR; sqrt is never evaluated (variance compared with the squared distance band-centre)",
-            "cases configured with the Vidya average are reported under the signature ind-value:vidya:<Indicator> (its running "
-            "sums amplify rounding residue: known finding shared with C03/C15)",
+            "cases configured with the Vidya average are reported under the one signature ind-value:vidya (its running sums amplify "
+            "rounding residue: known finding shared with C03/C15; the MA dispatch itself is covered by C15's law suite through "
+            "MA::from_str/init); CoppockCurve / KnowSureThing cases end (exempt) where a rate of change of a zero quantity is taken",
         ])
 
 
